@@ -28,6 +28,6 @@ mod c40;
 #[cfg(test)]
 mod corpus;
 #[cfg(test)]
-mod oracle;
+mod harness;
 #[cfg(test)]
-mod probe0;
+mod oracle;
